@@ -66,7 +66,7 @@ AlphaIgnTiny == {" ", "TAB", "LF", "CR", "BOM", "#", "U2", "x"}
 AlphaDocTiny == {"BOM", " ", "LF", "#", "U2", "x"}
 AlphaStrTiny == {"DQ", "BS", "n", "u", "x", "U2", "LF"}
 AlphaStrSmall9 == {"DQ", "BS", "n", "u", "x", "0", "U2", "BEL", "LF"}
-AlphaHexTiny == {"0", "a", "F", "x", "DQ", "U2"}
+AlphaHexTiny == {"0", "a", "f", "F", "x", "DQ", "U2"}
 AlphaBlkTiny == {" ", "LF", "a", "DQ", "BS", "U2"}
 AlphaNumTiny == {"-", "0", "1", ".", "e", "+", "a", ")"}
 AlphaNum10 == {"-", "0", "1", ".", "e", "E", "+", "a", " ", ")"}
